@@ -406,7 +406,13 @@ def correspond(ctx):
     # fixed shapes: zero-width matches, match at end of text, trailing ignorables
     cases += [(("empty",), {}, ["", "a", " a "], False), (("stringend",), {}, ["", "ab"], False), (("opt", gen.A), {}, ["a", "b a"], False),
               (("ignore", ("star", ("word", "ab")), ("and", ("lit", "#"), ("word", "ab"))), {}, ["a #b", "a #b ", "#a b"], True),
-              (("word", "ab"), {}, ["a\tb", "\ta", "a\t"], False), (("lineend",), {}, ["a\nb", "\n"], False)]
+              (("word", "ab"), {}, ["a\tb", "\ta", "a\t"], False), (("lineend",), {}, ["a\nb", "\n"], False),
+              # top-level expressions that do NOT skip whitespace and whose whitespace set is not the default one: the scan's own
+              # pre-skip (always_skip_whitespace) must use the expression's set
+              (("and", ("linestart",), ("lineend",)), {}, ["a\n\nb\n\n\nc", "\n\n", "a\nb", "\n a\n\n"], False),
+              (("leavews", ("setws", " ", ("word", "ab"))), {}, ["a\nb", "\na", "a \n b", "\n\nab"], False),
+              (("leavews", ("setws", "\n", ("mf", ("lit", " "), ("word", "ab")))), {}, ["a b", " a", "\n a\n b"], False),
+              (("and", ("leavews", ("setws", "\t", ("lineend",))), ("opt", ("word", "ab"))), {}, ["a\n\nb", "\n\t\nab"], False)]
     entries = [("parse", False), ("parse", True), ("scan", None, False, True), ("scan", 2, False, True), ("scan", None, True, True),
                ("scan", None, False, False), ("transform",)]
     groups = [(g, env, inputs, [("none",)], entries) for (g, env, inputs, _) in cases]
